@@ -1143,8 +1143,12 @@ func streamSc(o opts) {
 		st := kioshun.NewVerifStats(par)
 		n := st.Stripes()
 		w.T(sidSc, ints(int64(n)))
+		recorded := int64(0)
 		for i, ops := 0, 20+r.Intn(80); i < ops; i++ {
 			if r.Intn(5) == 0 {
+				if got := st.Aggregate(); got != recorded {
+					m.violate("C10", fmt.Sprintf("striped counters built for parallelism %d (%d stripes): %d recordHit calls (stripe ids up to 4x the stripe count), aggregate reports %d", par, n, recorded, got), "striped counters")
+				}
 				res := ints(st.Aggregate())
 				for j := 0; j < n; j++ {
 					res.I(st.Stripe(j))
@@ -1157,6 +1161,7 @@ func streamSc(o opts) {
 				id = uint64(r.Int63())
 			}
 			st.RecordHit(id)
+			recorded++
 			w.O(ints(1, int64(id)), &toks{})
 		}
 		res := ints(st.Aggregate())
